@@ -81,3 +81,7 @@ Proof. vm_compute. reflexivity. Qed.
 (* the run-time check of the theorem's hypotheses on observed responses is the theorem's own predicate *)
 Lemma ob_wf_twin : forall q r order, wf_snapshot q r order = wf_resp q r order.
 Proof. intros q r order. unfold wf_snapshot, wf_resp, wf_go, nocrlf_status. rewrite <- !andb_assoc. reflexivity. Qed.
+
+(* hopbyhop_modifier.go: the elements of a Connection value are trimmed before they are deleted *)
+Lemma ob_connection_tokens_trimmed : hbh_trims_connection_token = true.
+Proof. vm_compute. reflexivity. Qed.
